@@ -15,14 +15,17 @@ Certs == IF Tier = "q" THEN {0, 16} ELSE {0, 8, 24}
 Gaps == {0, 5}
 GapPoss == IF Tier = "q" THEN {1} ELSE {1, 2}
 
-Layouts(bits) == {[bits |-> bits, lfanew |-> lf, secs |-> ss, slack |-> sl, gap |-> gp, gappos |-> (IF gp = 0 THEN 1 ELSE gq), trail |-> tr, cert |-> ce] :
+ZPs(ss) == IF \E k \in 1..Len(ss) : ss[k].size = 0 THEN {"zero", "pos"} ELSE {"zero"}
+Lay(bits, lf, ss, sl, gp, gq, tr, ce, zp) == [bits |-> bits, lfanew |-> lf, secs |-> ss, slack |-> sl, gap |-> gp, gappos |-> (IF gp = 0 THEN 1 ELSE gq),
+                                             trail |-> tr, cert |-> ce, zptr |-> zp]
+Layouts(bits) == UNION {{Lay(bits, lf, ss, sl, gp, gq, tr, ce, zp) : zp \in ZPs(ss)} :
                     lf \in LfaNews, ss \in SecSeqs, sl \in Slacks, tr \in Trails, ce \in Certs, gp \in Gaps, gq \in GapPoss}
 MCInit == \E bits \in {32, 64} : \E i \in Layouts(bits) : Start(i)
 
 (* a few layouts with sections larger than 32 KiB (positional reads cross chunk and part boundaries) *)
 BigSecSeqs == UNION {{[k \in 1..n |-> [size |-> sz[k], fpos |-> p[k]]] : sz \in [1..n -> {0, 32773, 70001}], p \in Perms(n)} : n \in 1..2}
 BigInit == \E bits \in {32, 64} : \E ss \in BigSecSeqs, tr \in {0, 3}, ce \in {0, 16} :
-             Start([bits |-> bits, lfanew |-> 64, secs |-> ss, slack |-> 8, gap |-> 0, gappos |-> 1, trail |-> tr, cert |-> ce])
+             Start([bits |-> bits, lfanew |-> 64, secs |-> ss, slack |-> 8, gap |-> 0, gappos |-> 1, trail |-> tr, cert |-> ce, zptr |-> "zero"])
 
 (* code -> spec: layouts projected from real files by the harness's independent PE reader *)
 Obs == ndJsonDeserialize("obs.ndjson")
